@@ -1,7 +1,8 @@
 """Registry: property id -> check function(tier, replay_path) -> exit code."""
-from . import engine, misc, server
+from . import adv, engine, misc, server
 
 REGISTRY = {}
 REGISTRY.update(engine.REGISTRY)
 REGISTRY.update(server.REGISTRY)
 REGISTRY.update(misc.REGISTRY)
+REGISTRY.update(adv.REGISTRY)
